@@ -16,6 +16,7 @@ import (
 	"time"
 
 	awsapi "github.com/aws/aws-sdk-go/aws"
+	"github.com/aws/aws-sdk-go/aws/awserr"
 	"github.com/aws/aws-sdk-go/aws/request"
 	"github.com/aws/aws-sdk-go/service/autoscaling"
 	"github.com/aws/aws-sdk-go/service/autoscaling/autoscalingiface"
@@ -43,6 +44,7 @@ type Recorder struct {
 	FailDesc map[string]bool  // instance ids whose DescribeInstances fails
 	DescOdd  map[string]int   // instance ids whose DescribeInstances is malformed (reservation count)
 	Conflict bool             // injected UPDATE failures are 409 Conflicts: a concurrent writer changed the node's taints meanwhile
+	AwsCode  string           // error code of failing AWS calls ("" = an untyped error)
 	n        int              // ordered calls so far
 }
 
@@ -56,6 +58,15 @@ func (r *Recorder) reset() {
 	r.FailDesc = map[string]bool{}
 	r.DescOdd = map[string]int{}
 	r.Conflict = false
+}
+
+// awsErr is what a failing AWS call returns: an SDK error with a service code (throttling, expired credentials,
+// validation) or an untyped error.
+func (r *Recorder) awsErr() error {
+	if r.AwsCode == "" {
+		return errInjected
+	}
+	return awserr.New(r.AwsCode, "injected failure", nil)
 }
 
 // ordered registers an ordered call and says whether it must fail.
@@ -255,7 +266,7 @@ func (a *AwsSim) DescribeAutoScalingGroups(in *autoscaling.DescribeAutoScalingGr
 	}
 	if fail {
 		a.rec.record(cDescribeAsgs(names), false, rFail())
-		return nil, errInjected
+		return nil, a.rec.awsErr()
 	}
 	sorted := append([]string{}, names...)
 	sort.Strings(sorted)
@@ -293,7 +304,7 @@ func (a *AwsSim) SetDesiredCapacity(in *autoscaling.SetDesiredCapacityInput) (*a
 	g, ok := a.asgs[name]
 	if fail || !ok || v < g.Min || v > g.Max {
 		a.rec.record(cSetDesired(name, v), false, rFail())
-		return nil, fmt.Errorf("ValidationError or injected")
+		return nil, a.rec.awsErr()
 	}
 	a.rec.record(cSetDesired(name, v), true, rOk())
 	g.Desired = v
@@ -315,7 +326,7 @@ func (a *AwsSim) TerminateInstanceInAutoScalingGroup(in *autoscaling.TerminateIn
 	}
 	if fail || grp == nil || (decr && grp.Desired-1 < grp.Min) {
 		a.rec.record(cTerminateInAsg(id, decr), false, rFail())
-		return nil, fmt.Errorf("ValidationError or injected")
+		return nil, a.rec.awsErr()
 	}
 	a.rec.record(cTerminateInAsg(id, decr), true, rOk())
 	grp.Instances = append(grp.Instances[:idx:idx], grp.Instances[idx+1:]...)
@@ -346,7 +357,7 @@ func (a *AwsSim) AttachInstances(in *autoscaling.AttachInstancesInput) (*autosca
 	}
 	if bad {
 		a.rec.record(cAttach(name, ids), false, rFail())
-		return nil, fmt.Errorf("ValidationError or injected")
+		return nil, a.rec.awsErr()
 	}
 	a.rec.record(cAttach(name, ids), true, rOk())
 	for _, id := range ids {
@@ -365,7 +376,7 @@ func (a *AwsSim) CreateOrUpdateTags(in *autoscaling.CreateOrUpdateTagsInput) (*a
 	}
 	if fail {
 		a.rec.record(cCreateTags(name), false, rFail())
-		return nil, errInjected
+		return nil, a.rec.awsErr()
 	}
 	a.rec.record(cCreateTags(name), true, rOk())
 	if g, ok := a.asgs[name]; ok {
@@ -418,7 +429,7 @@ func (e *Ec2Sim) CreateFleet(in *ec2.CreateFleetInput) (*ec2.CreateFleetOutput, 
 	req := protoFleetReq(in)
 	if fail {
 		e.rec.record(cCreateFleet(req), false, rFail())
-		return nil, errInjected
+		return nil, e.rec.awsErr()
 	}
 	out := &ec2.CreateFleetOutput{}
 	var errs []string
@@ -466,7 +477,7 @@ func (e *Ec2Sim) DescribeInstanceStatusPages(in *ec2.DescribeInstanceStatusInput
 	e.tick++
 	if fail {
 		e.rec.record(cDescribeStatus(ids), false, rFail())
-		return errInjected
+		return e.rec.awsErr()
 	}
 	// pages of <= 100 statuses; at a not-ready tick the last instance is "pending"
 	pages := [][]bool{}
@@ -511,7 +522,7 @@ func (e *Ec2Sim) TerminateInstances(in *ec2.TerminateInstancesInput) (*ec2.Termi
 	}
 	if fail {
 		e.rec.record(cTerminateInstances(ids), false, rFail())
-		return nil, errInjected
+		return nil, e.rec.awsErr()
 	}
 	e.rec.record(cTerminateInstances(ids), true, rOk())
 	for _, id := range ids {
@@ -528,7 +539,7 @@ func (e *Ec2Sim) DescribeInstances(in *ec2.DescribeInstancesInput) (*ec2.Describ
 	if e.rec.FailDesc[id] {
 		e.rec.Entries = append(e.rec.Entries, PEntry{cDescribeInstances(id), false})
 		e.rec.Desc = append(e.rec.Desc, [2]interface{}{id, rFail()})
-		return nil, errInjected
+		return nil, e.rec.awsErr()
 	}
 	nres := 1
 	if v, ok := e.rec.DescOdd[id]; ok {
